@@ -72,6 +72,18 @@ CHECKS = {
         note="Text formats are parsed structurally (section / paragraph / bullet; path: message [id]) with opaque labels; "
              "the reference for all views is the same state's lint --json, whose own correctness is C01's subject.",
         ref="5/C13"),
+    "C18": dict(
+        technique="TLA+ requirement for the document (Spdx.tla: bijections, truth-table equivalence Equiv, Project!InfoOf "
+                  "for per-file identifiers and notices); TLC-enumerated / sampled expression trees and project states; "
+                  "TLC trace validation of `reuse spdx` parsed by a strict tag-value reader",
+        text="Every expression tree of depth <= 1 (with its AND/OR dual in a second file), TLC-sampled deeper trees and "
+             "project states from Lint.tla / Inventory.tla are materialised and exported; TLC checks one File section "
+             "per covered file and no other, unique SPDXIDs matched one-to-one by DESCRIBES, true SHA-1, exact "
+             "LicenseInfoInFile / FileCopyrightText, LicenseConcluded logically equivalent to the conjunction of the "
+             "file's expressions under every truth assignment, and every LicenseRef- with its text.",
+        note="SHA-1 values come from hashlib (environment fact); the tag-value and expression readers are written for this "
+             "check; header fields are only required to be present.",
+        ref="5/C18"),
     "C03": dict(
         technique="TLA+ requirement CoverReq (three-valued: must / must not / unpinned) vs walk-with-pruning mechanism "
                   "model-checked by TLC; TLC-enumerated directory-context x name-class x type x VCS-wish nodes built as "
